@@ -33,3 +33,30 @@ class ProbeForecaster(_OptionalForecastingHorizonMixin, _ProbeBase):
 
 class ProbeForecasterReq(_RequiredForecastingHorizonMixin, _ProbeBase):
     pass
+
+
+class _IntervalMixin:
+    """ThetaForecaster's shape of interval support on top of the REAL base classes: `_predict` = the
+    parent's point forecast, then the base class's `compute_pred_int`; `_compute_pred_err` reads the
+    stored horizon and the cutoff.  Half-width = (alpha in per-mille) * |step| / 8 (exact in binary)."""
+
+    def _predict(self, fh, X=None, return_pred_int=False, alpha=0.05):
+        y_pred = super(_IntervalMixin, self)._predict(fh, X, return_pred_int=False, alpha=alpha)
+        if return_pred_int:
+            return y_pred, self.compute_pred_int(y_pred=y_pred, alpha=alpha)
+        return y_pred
+
+    def _compute_pred_err(self, alphas):
+        import pandas as pd
+        self.check_is_fitted()
+        rel = self.fh.to_relative(self.cutoff).to_pandas()
+        ab = self.fh.to_absolute(self.cutoff).to_pandas()
+        return [pd.Series([int(round(a * 1000)) * abs(int(h)) / 8.0 for h in rel], index=ab) for a in alphas]
+
+
+class IntervalProbe(_IntervalMixin, _OptionalForecastingHorizonMixin, _ProbeBase):
+    pass
+
+
+class IntervalProbeReq(_IntervalMixin, _RequiredForecastingHorizonMixin, _ProbeBase):
+    pass
